@@ -22,6 +22,23 @@ def opLower : List String → String
   | [a] => withS a fun s => encS (lower s)
   | _ => "bad-op"
 
+/-- a shortest string on which a regenerated name pattern and its spec regex differ, if any -/
+def opDistinguish : List String → String
+  | [name] =>
+    let r : Option (Nat × List Nat × Rx.R × Rx.R) :=
+      if name == "NameValidRx" then
+        some (Gen.NameValidRx.nClasses, Gen.NameValidRx.reps, Gen.NameValidRx.rx, NameSpec.validRx Gen.NameValidRx.kinds)
+      else if name == "NormalizedRx" then
+        some (Gen.NormalizedRx.nClasses, Gen.NormalizedRx.reps, Gen.NormalizedRx.rx, NameSpec.normalizedRx Gen.NormalizedRx.kinds)
+      else none
+    match r with
+    | some (n, reps, g, sp) =>
+      (match Rx.distinguish n g sp with
+       | some w => "word " ++ encS (w.map fun c => reps.getD c 0)
+       | none => "none")
+    | none => "bad-arg"
+  | _ => "bad-op"
+
 def opCanonV : List String → String
   | [a] => withS a fun s => match canonicalizeName s true with
       | some r => "ok " ++ encS r
@@ -118,7 +135,7 @@ def opAssemble : List String → String
   | _ => "bad-op"
 
 def ops : List (String × (List String → String)) :=
-  [ ("name.canon", opCanon), ("str.lower", opLower), ("name.canonv", opCanonV), ("name.isnorm", opIsNorm), ("name.all", opAll),
+  [ ("name.canon", opCanon), ("str.lower", opLower), ("name.distinguish", opDistinguish), ("name.canonv", opCanonV), ("name.isnorm", opIsNorm), ("name.all", opAll),
     ("s.name.fold", opSpecFold), ("s.name.valid", opSpecValid), ("s.name.normalized", opSpecNormalized), ("s.name.all", opSpecAll),
     ("tag.parse", opTagParse), ("tag.pair", opTagPair), ("whl.parse", opWheel), ("sdist.parse", opSdist),
     ("s.whl.assemble", opAssemble) ]
